@@ -242,7 +242,11 @@ pub(crate) mod inner {
             T: Default,
         {
             let mutex = self.0.get_or_init(Default::default);
-            let mut guard = mutex.write().unwrap();
+            // A panic in `f` (formatter creation) leaves the maps untouched,
+            // so a poisoned lock still guards a consistent cache.
+            let mut guard = mutex
+                .write()
+                .unwrap_or_else(std::sync::PoisonError::into_inner);
             f(&mut guard)
         }
     }
